@@ -28,7 +28,7 @@ open Board
 /-- where the bring-up is, as far as the trace tells -/
 inductive Ph where
   | off | ubAuto | ubLoop | ubUp | bootSent | ask | login1 | login2 | pw | done | lnxUp
-  deriving Repr, BEq, DecidableEq, Inhabited
+  deriving Repr, DecidableEq, Inhabited
 
 structure Mon where
   ph : Ph := .off
